@@ -537,7 +537,10 @@ func (cs *chargingStation) SendRequestAsync(request ocpp.Request, callback func(
 	return err
 }
 
-func (cs *chargingStation) asyncCallbackHandler() {
+// asyncCallbackHandler serves the outcomes of one session (from Start to Stop). It is given the stop channel of its
+// session: Start replaces the channel in the struct, so a handler that was busy inside an application callback while the
+// endpoint was stopped and started again must not look at the field, or it never stops and keeps serving the new session.
+func (cs *chargingStation) asyncCallbackHandler(stopC chan struct{}) {
 	for {
 		select {
 		case outcome := <-cs.outcomeHandler:
@@ -549,10 +552,8 @@ func (cs *chargingStation) asyncCallbackHandler() {
 			} else {
 				cs.error(fmt.Errorf("no callback available for incoming error %w", outcome.err))
 			}
-		case <-cs.stopC:
-			// Handler stopped, cleanup callbacks.
-			// No callback invocation, since the user manually stopped the client.
-			cs.clearCallbacks(false)
+		case <-stopC:
+			// Handler stopped. The callbacks of the session were dropped by Stop already.
 			return
 		}
 	}
@@ -610,7 +611,7 @@ func (cs *chargingStation) Start(csmsUrl string) error {
 	err := cs.client.Start(csmsUrl)
 	// Async response handler receives incoming responses/errors and triggers callbacks
 	if err == nil {
-		go cs.asyncCallbackHandler()
+		go cs.asyncCallbackHandler(cs.stopC)
 	}
 	return err
 }
@@ -620,12 +621,16 @@ func (cs *chargingStation) StartWithRetries(csmsUrl string) {
 	cs.stopC = make(chan struct{}, 1)
 	cs.client.StartWithRetries(csmsUrl)
 	// Async response handler receives incoming responses/errors and triggers callbacks
-	go cs.asyncCallbackHandler()
+	go cs.asyncCallbackHandler(cs.stopC)
 }
 
 func (cs *chargingStation) Stop() {
 	cs.client.Stop()
 	close(cs.stopC)
+	// Cleanup callbacks before returning: a new session may start right away and must not lose its callbacks to a
+	// late cleanup, nor inherit the callbacks of this one.
+	// No callback invocation, since the user manually stopped the client.
+	cs.clearCallbacks(false)
 }
 
 func (cs *chargingStation) IsConnected() bool {
